@@ -1005,6 +1005,13 @@ class CxClass:
                     seq = ev(e.args[0])
                     if isinstance(sep, str) and isinstance(seq, list) and all(isinstance(x, str) for x in seq):
                         return sep.join(seq)
+                if f.attr == 'replace' and len(e.args) == 2 and not e.keywords \
+                        and all(isinstance(x, ast.Constant) and isinstance(x.value, str) for x in e.args):
+                    # <attribute>.replace(<const>, <const>): a hand-written escape of the attribute's text.  The model tracks WHICH
+                    # attribute lands in the source; whether the escape is sufficient for the position is R9's obligation.
+                    inner = ev(f.value)
+                    if isinstance(inner, str) and _MARK_RE.fullmatch(inner):
+                        return inner
                 raise UnknownIdiom('%s: call %s' % (where, short(e, 60)))
             if isinstance(e, (ast.List, ast.Tuple)):
                 return [ev(x) for x in e.elts]
@@ -1253,10 +1260,12 @@ def join_txt(parts) -> Optional[Txt]:
     return out
 
 
-def placeholder_positions(tmpl: str, where: str) -> List[Tuple[int, Optional[str], str, str]]:
+def placeholder_positions(tmpl: str, where: str, with_quote: bool = False) -> List[tuple]:
     """(argument index, conversion, position, line skeleton) of every
     placeholder of a str.format template that renders generated source;
-    position is 'quoted' / 'comment' / 'bare'."""
+    position is 'quoted' / 'comment' / 'bare'.  With `with_quote` a fifth
+    element gives the quote character a 'quoted' placeholder sits between
+    (None elsewhere)."""
     try:
         parsed = list(string.Formatter().parse(tmpl))
     except ValueError as e:
@@ -1296,9 +1305,72 @@ def placeholder_positions(tmpl: str, where: str) -> List[Tuple[int, Optional[str
             raise UnknownIdiom('%s: named/complex placeholder {%s} in %r' % (where, field, tmpl))
         skeleton.append('{%d%s}' % (idx, '!' + conv if conv else ''))
         lineno = ''.join(skeleton).count('\n')
-        found.append((idx, conv, {'code': 'bare', 'comment': 'comment'}.get(state, 'quoted'), lineno))
+        found.append((idx, conv, {'code': 'bare', 'comment': 'comment'}.get(state, 'quoted'), lineno,
+                      state if state in ('\'', '"') else None))
     lines = ''.join(skeleton).split('\n')
-    return [(idx, conv, pos, lines[ln].strip()) for (idx, conv, pos, ln) in found]
+    if with_quote:
+        return [(idx, conv, pos, lines[ln].strip(), q) for (idx, conv, pos, ln, q) in found]
+    return [(idx, conv, pos, lines[ln].strip()) for (idx, conv, pos, ln, _q) in found]
+
+
+def peel_escape(e) -> Tuple[ast.AST, List[Tuple[str, str]]]:
+    """(<base expression>, [(old, new), ...] innermost first) for
+    `<base>.replace(<const>, <const>)...`: a hand-written escape function."""
+    chain: List[Tuple[str, str]] = []
+    while isinstance(e, ast.Call) and isinstance(e.func, ast.Attribute) and e.func.attr == 'replace' and len(e.args) == 2 \
+            and not e.keywords and all(isinstance(x, ast.Constant) and isinstance(x.value, str) for x in e.args):
+        chain.append((e.args[0].value, e.args[1].value))
+        e = e.func.value
+    chain.reverse()
+    return e, chain
+
+
+def apply_chain(chain: List[Tuple[str, str]], text: str) -> str:
+    for old, new in chain:
+        text = text.replace(old, new)
+    return text
+
+
+ORDINARY_CHARS = 'aZ09_ {}.-/%ntxru\u00e9'
+
+
+def escape_effect(chain: List[Tuple[str, str]], pos: str, quote: Optional[str], where: str) -> Tuple[FrozenSet[str], List[str], Dict[str, List[str]]]:
+    """What a chain of single-character `.replace` calls (a string
+    homomorphism: the image of a text is the concatenation of the images of
+    its characters) does to text placed at a position of the generated source,
+    decided on the alphabet {backslash, ', ", CR, LF, ordinary characters}:
+    -> (hazard classes it neutralises, ordinary characters whose denotation it
+    changes, hazard class -> characters of it that are not handled).  Between quotes a character is handled iff quote + image + quote
+    is a Python literal that denotes exactly that character; in a comment iff
+    its image has no line break.  The replace constants are data read from the
+    analysed tree; only str.replace / ast.literal_eval of the stdlib run."""
+    if not chain:
+        return frozenset(), [], {}
+    if any(len(old) != 1 for old, _new in chain):
+        raise UnknownIdiom('%s: escape by .replace() of a pattern that is not one character (not a character-wise mapping)' % where)
+
+    def image(c: str) -> str:
+        for old, new in chain:
+            c = c.replace(old, new)
+        return c
+
+    def denotes(c: str) -> bool:
+        if pos == 'comment':
+            return not any(x in image(c) for x in '\n\r')
+        try:
+            return ast.literal_eval(quote + image(c) + quote) == c
+        except Exception:
+            return False
+
+    if pos == 'quoted':
+        if quote not in ('\'', '"'):
+            raise UnknownIdiom('%s: hand-escaped text between unknown quotes' % where)
+    elif pos != 'comment':
+        raise UnknownIdiom('%s: hand-escaped text in code position' % where)
+    failing = {haz: [c for c in PROBE_CHARS[haz] if not denotes(c)] for haz in (NL, QUOTE)}
+    neutral = {haz for haz in (NL, QUOTE) if not failing[haz]}
+    altered = [c for c in ORDINARY_CHARS if pos == 'quoted' and not denotes(c)]
+    return frozenset(neutral), altered, failing
 
 
 def replacement_parts(repl: str) -> Tuple[str, List[object]]:
